@@ -6,26 +6,38 @@
    (for which the full statement is false, see C31_full_statement_refuted). *)
 From Coq Require Import List NArith Bool.
 Import ListNotations.
-From Cffi Require Import C31.Model C31.Proofs C31.Proofs2.
+From Cffi Require Import C31.Model C31.Proofs C31.Proofs2 C31.Proofs3.
 Open Scope N_scope.
 
+(* TIES of the hand-modelled regular expressions to Python's `re` (differential runs of tools/props/c31.py on
+   every ./check C31; a disagreement is reported under exactly these names):
+     [tie-comment]    "C31.Model.sc vs cparser._r_comment.sub(replace_keeping_newlines)"   sc, block_end, line_end, closed
+     [tie-words]      "C31.Model.words vs cparser._r_words.findall"                         words (lwords: same scanner, '\n' kept)
+     [tie-preprocess] "C31.Model.preprocess vs cparser._preprocess"                         _r_other_whitespace (normalize_ws),
+                      _r_line_directive (is_dirline, stash/restore), _r_define (define_at, value_end, macro_value), the
+                      composition; on texts where the later '...'/extern "Python"/__stdcall rewriting finds nothing *)
+
 (* comment removal never changes the number of line ends (all texts) *)
+(* [tie-comment] *)
 Theorem C31_newlines_preserved : forall s, count_nl (sc s) = count_nl s.
 Proof. exact sc_count_nl. Qed.
 Print Assumptions C31_newlines_preserved.
 
 (* at a cut outside comments the scanner works on both sides independently (all texts s2) *)
+(* [tie-comment] *)
 Theorem C31_scanner_compositional : forall s1, closed s1 -> forall s2, sc (s1 ++ s2) = sc s1 ++ sc s2.
 Proof. exact sc_app. Qed.
 Print Assumptions C31_scanner_compositional.
 
 (* an inserted comment is, for every later step, a blank followed by its own newlines *)
+(* [tie-comment] *)
 Theorem C31_block_comment_is_space : forall s1 c nl s2, closed s1 ->
   block_end (c ++ [STAR; SLASH]) 0 = Some (nl, []) ->
   sc (s1 ++ (SLASH :: STAR :: c ++ [STAR; SLASH]) ++ s2) = sc s1 ++ (SP :: repeat NL nl) ++ sc s2.
 Proof. exact block_comment_is_space. Qed.
 Print Assumptions C31_block_comment_is_space.
 
+(* [tie-comment] *)
 Theorem C31_line_comment_is_space : forall s1 c s2, closed s1 -> forallb plain_char c = true ->
   sc (s1 ++ (SLASH :: SLASH :: c ++ [NL]) ++ s2) = sc s1 ++ [SP; NL] ++ sc s2.
 Proof. exact line_comment_is_space. Qed.
@@ -34,6 +46,7 @@ Print Assumptions C31_line_comment_is_space.
 (* central statement: inserting any sequence of white space, /* */ comments and // comments at a cut
    that is outside comments and does not split a word leaves the word sequence (\w+|\S, what
    _common_type_names and every later step sees) unchanged *)
+(* [tie-comment] [tie-words] *)
 Theorem C31_insertion_keeps_words : forall s1 f s2,
   closed s1 -> filler f -> word_boundary (sc s1) (sc s2) ->
   words (sc (s1 ++ f ++ s2)) = words (sc (s1 ++ s2)).
@@ -42,6 +55,7 @@ Print Assumptions C31_insertion_keeps_words.
 
 (* ... and, when the filler contains no newline, also the line structure (newline kept as a token):
    what the line-based steps _r_define and _r_line_directive see *)
+(* [tie-comment] [tie-words] *)
 Theorem C31_inline_insertion_keeps_lines : forall s1 f s2,
   closed s1 -> inline_filler f -> word_boundary (sc s1) (sc s2) ->
   lwords (sc (s1 ++ f ++ s2)) = lwords (sc (s1 ++ s2)).
@@ -50,6 +64,7 @@ Print Assumptions C31_inline_insertion_keeps_lines.
 
 (* a backslash-newline inside the value part of a #define: the value group of _r_define extends over
    it, the rest of the text is the same, and the macro value is the same *)
+(* [tie-preprocess] *)
 Theorem C31_define_continuation : forall a b rest,
   forallb plain_char a = true -> forallb plain_char b = true ->
   value_end (a ++ BSL :: NL :: b ++ NL :: rest) = Some (a ++ BSL :: NL :: b, NL :: rest) /\
@@ -59,6 +74,7 @@ Proof. exact define_continuation. Qed.
 Print Assumptions C31_define_continuation.
 
 (* blanks around a macro value are irrelevant *)
+(* [tie-preprocess] *)
 Theorem C31_macro_value_blanks : forall ws1 v ws2,
   forallb is_space ws1 = true -> forallb is_space ws2 = true ->
   forallb (fun x => negb (x =? BSL)) v = true ->
@@ -68,6 +84,7 @@ Print Assumptions C31_macro_value_blanks.
 
 (* stashing the line directives and putting them back is the identity on every text
    (no AssertionError/IndexError/ValueError when nothing happens in between) *)
+(* [tie-preprocess] *)
 Theorem C31_line_directives_roundtrip : forall s,
   put_back_line_directives (fst (remove_line_directives s)) (snd (remove_line_directives s)) = Ok s.
 Proof. exact line_directives_roundtrip. Qed.
@@ -75,13 +92,43 @@ Print Assumptions C31_line_directives_roundtrip.
 
 (* the stashed placeholder '#line@N' passes through comment removal untouched at any cut outside comments:
    the directive text (whose file name may contain comment openers) cannot confuse the comment scanner *)
+(* [tie-comment] [tie-preprocess] *)
 Theorem C31_placeholder_inert : forall s1 i s2, closed s1 ->
   sc (s1 ++ (s_lineat ++ dec i) ++ s2) = sc s1 ++ (s_lineat ++ dec i) ++ sc s2.
 Proof. exact placeholder_inert. Qed.
 Print Assumptions C31_placeholder_inert.
 
-(* NOT proved: invariance of the composed _preprocess under insertion of a directive line -- it is false at the
-   positions of known finding directive_in_rewritten_construct; covered by the metamorphic test elsewhere *)
+(* Composed _preprocess (all four modelled stages: \r\f\v normalisation, directive stash, comment removal, #define
+   extraction, directive restore) and the insertion of a line directive.
+   `plain_text`: no '#', no '/', no \r \f \v -- declarations without comments, directives and #define lines; a
+   decidable condition on the two sides of the insertion point.  In the MODEL the later rewriting steps ('...',
+   extern "Python", __stdcall) do not exist, so "outside the rewritten constructs" cannot be expressed here: the
+   theorem below is the positive statement for the modelled stages only; the positions inside those constructs
+   are where the real parser fails (known finding directive_in_rewritten_construct, metamorphic test).
+   NOT proved: the same with comments / other directives / #define lines on either side (needs renumbering of
+   the placeholders through the comment scanner); covered by the metamorphic test. *)
+(* [tie-preprocess] *)
+Theorem C31_preprocess_plain : forall s, plain_text s = true -> preprocess s = Ok (s, []).
+Proof. exact preprocess_plain. Qed.
+Print Assumptions C31_preprocess_plain.
+
+(* one line directive d -- any content, its file name may contain comment openers, '#', quotes -- inserted
+   between two lines of plain declarations comes back verbatim at the same place; nothing else changes, no macro
+   appears, no error *)
+(* [tie-preprocess] *)
+Theorem C31_directive_insertion_plain : forall x d y,
+  plain_text x = true -> plain_text y = true ->
+  is_dirline d = true -> nlfree d -> forallb (fun c => negb (other_ws c)) d = true ->
+  preprocess (x ++ NL :: d ++ NL :: y) = Ok (x ++ NL :: d ++ NL :: y, []).
+Proof. exact directive_insertion_plain. Qed.
+Print Assumptions C31_directive_insertion_plain.
+
+(* non-vacuity:  "int"  |  # 5 "a//b/*c"  |  "x;" *)
+Example C31_directive_insertion_example :
+  let d := [35;32;53;32;34;97;47;47;98;47;42;99;34] in
+  plain_text [105;110;116] = true /\ plain_text [120;59] = true /\ is_dirline d = true /\
+  preprocess ([105;110;116] ++ NL :: d ++ NL :: [120;59]) = Ok ([105;110;116] ++ NL :: d ++ NL :: [120;59], []).
+Proof. vm_compute. repeat split; reflexivity. Qed.
 
 (* ---- the full statement for the composed pre-processing, and why it is only partial ---- *)
 
@@ -105,6 +152,7 @@ Lemma w_s1_closed : closed w_s1.
 Proof. repeat (apply cl_plain; [discriminate|]). constructor. Qed.
 
 (* known finding define_multiline_comment: the macro X becomes empty and "1" stays in the text *)
+(* [tie-preprocess] [tie-comment] [tie-words] *)
 Theorem C31_full_statement_refuted : ~ C31_full_statement.
 Proof.
   intros H. specialize (H w_s1 w_f w_s2 w_s1_closed w_f_filler eq_refl).
@@ -119,10 +167,12 @@ Example C31_comment_before_directive_raises :
 Proof. vm_compute. reflexivity. Qed.
 
 (* \r, \f, \v are turned into blanks first (fixed: other_whitespace): same words, none left *)
+(* [tie-preprocess] [tie-words] *)
 Theorem C31_normalize_keeps_words : forall s, words (normalize_ws s) = words s.
 Proof. exact normalize_keeps_words. Qed.
 Print Assumptions C31_normalize_keeps_words.
 
+(* [tie-preprocess] *)
 Theorem C31_normalize_removes : forall s, forallb (fun c => negb (other_ws c)) (normalize_ws s) = true.
 Proof. exact normalize_removes. Qed.
 Print Assumptions C31_normalize_removes.
